@@ -93,6 +93,37 @@ for (cn, pn), attr in SP.ALIASES.items():
                               ensures=[("same-object", f"result is obj.{attr}")], notes=f"{cn}.{pn} is {attr}", props=["C16"], symbolic_only=True))
 
 
+class AliasArg2(Arg):
+    """the same, with the aliased child a heap instance of its class that may just as well be ABSENT (None) - an optional
+    sub-aggregate that the server left out - and everything else of the holder opaque"""
+
+    def __init__(self, name, cls, attr):
+        self.name = name; self.cls = cls; self.attr = attr
+
+    def make(self, it):
+        f = {"__items__": []}
+        for a in self.cls.spec_no_listaggregates:
+            f[a] = opaque(a)
+        t = self.cls.spec[self.attr]
+        child_cls = getattr(t, "__type__", None)
+        if isinstance(child_cls, type):
+            cf = {"__items__": []}
+            for a in child_cls.spec_no_listaggregates:
+                cf[a] = opaque(a)
+            child = SObj(child_cls, cf, fresh=False, label=f"{self.name}_child")
+        else:
+            child = opaque(self.attr)
+        f[self.attr] = SIte(z3.Bool(f"{self.name}_{self.attr}_absent"), None, child)
+        return SObj(self.cls, f, fresh=False, label=self.name), []
+
+
+for (cn, pn), attr in SP.ALIASES.items():
+    cls = getattr(m, cn)
+    CONTRACTS.append(Contract(f"ofxtools.models:{cn}.{pn}", args=[AliasArg2("obj", cls, attr)], call=prop(pn),
+                              ensures=[("same-object-or-None-when-absent", f"result is obj.{attr}")],
+                              notes=f"{cn}.{pn} is {attr}; the child present (a heap instance) or absent", props=["C16"], symbolic_only=True))
+
+
 # ------------------------------------------------------------------ OFX.statements / signon / securities
 class OfxArg(Arg):
     """an OFX tree: each of the six statement message sets is None or holds two wrappers (first statement wrapper
